@@ -5,48 +5,43 @@
   sufficiency (`readFuel input` is always enough), for every input, configuration and
   option set.  This is the termination half of property C02 and the lemma that lets
   reader-level theorems move between fuels.
+
+  The helper definitions `Res.isFuelOut`, `Res.st` and `Progress` live in
+  `Edn.Proofs.FuelAux1`; the proofs are organised as follows:
+    FuelAux1  cursor lemmas for `readNumber`
+    FuelAux2  progress of the leaf readers
+    FuelAux3  the six reader functions as non-recursive step functions
+    FuelAux4  progress,  FuelAux5  monotonicity,  FuelAux6  sufficiency
+    FuelAux7  no "closer" answer at depth 0; the dispatch at the nesting limit
 -/
-import Edn.Model.Reader
+import Edn.Proofs.FuelAux5
+import Edn.Proofs.FuelAux6
+import Edn.Proofs.FuelAux7
 
 namespace Edn.Proofs
 open Edn.Model
 
-def _root_.Edn.Model.Res.isFuelOut : Res → Bool
-  | .err e _ => e.fuelOut
-  | _ => false
-
-/-- the state a result carries -/
-def _root_.Edn.Model.Res.st : Res → St
-  | .ok _ st | .closer st | .err _ st => st
-
-/-- progress: a value consumes at least one byte; no result moves the position backwards -/
-def Progress (before : St) (r : Res) : Prop :=
-  match r with
-  | .ok _ st' => st'.rest.length < before.rest.length
-  | .closer st' => st'.rest.length ≤ before.rest.length
-  | .err _ st' => st'.rest.length ≤ before.rest.length
-
 /-! ## leaf readers -/
 
-theorem readString_progress (ctx : Ctx) (st : St) (h : st.rest ≠ []) : Progress st (readString ctx st) := by
-  sorry
-theorem readCharacter_progress (ctx : Ctx) (st : St) (h : st.rest ≠ []) : Progress st (readCharacter ctx st) := by
-  sorry
-theorem readIdentifier_progress (ctx : Ctx) (st : St) : Progress st (readIdentifier ctx st) := by
-  sorry
-theorem readSymbolic_progress (ctx : Ctx) (st : St) (h : 2 ≤ st.rest.length) : Progress st (readSymbolic ctx st) := by
-  sorry
+theorem readString_progress (ctx : Ctx) (st : St) (h : st.rest ≠ []) : Progress st (readString ctx st) :=
+  readString_progress' ctx st h
+theorem readCharacter_progress (ctx : Ctx) (st : St) (h : st.rest ≠ []) : Progress st (readCharacter ctx st) :=
+  readCharacter_progress' ctx st h
+theorem readIdentifier_progress (ctx : Ctx) (st : St) : Progress st (readIdentifier ctx st) :=
+  readIdentifier_progress' ctx st
+theorem readSymbolic_progress (ctx : Ctx) (st : St) (h : 2 ≤ st.rest.length) : Progress st (readSymbolic ctx st) :=
+  readSymbolic_progress' ctx st h
 theorem readNumberRes_progress (ctx : Ctx) (st : St) (c : UInt8) (cs : Bytes) (h : st.rest = c :: cs)
     (hc : is09 c = true ∨ ((c == 0x2B || c == 0x2D) = true ∧ ∃ d t, cs = d :: t ∧ is09 d = true)) :
-    Progress st (readNumberRes ctx st) := by
-  sorry
+    Progress st (readNumberRes ctx st) :=
+  readNumberRes_progress' ctx st c cs h hc
 theorem leaf_not_fuelOut (ctx : Ctx) (st : St) :
     (readString ctx st).isFuelOut = false ∧ (readCharacter ctx st).isFuelOut = false ∧
     (readIdentifier ctx st).isFuelOut = false ∧ (readSymbolic ctx st).isFuelOut = false ∧
-    (readNumberRes ctx st).isFuelOut = false := by
-  sorry
-theorem skipWs_length_le (s : Bytes) : (skipWs s).length ≤ s.length := by
-  sorry
+    (readNumberRes ctx st).isFuelOut = false :=
+  leaf_not_fuelOut' ctx st
+theorem skipWs_length_le (s : Bytes) : (skipWs s).length ≤ s.length :=
+  skipWs_length_le' s
 
 /-! ## the recursive reader -/
 
@@ -57,8 +52,8 @@ theorem reader_progress (ctx : Ctx) : ∀ (f : Nat),
     (∀ d dm start ns st ks vs, (readMap ctx f d dm start ns st ks vs).st.rest.length ≤ st.rest.length) ∧
     (∀ d dm start st, (readNsMap ctx f d dm start st).st.rest.length ≤ st.rest.length) ∧
     (∀ d dm start st, (readTagged ctx f d dm start st).st.rest.length ≤ st.rest.length) ∧
-    (∀ d dm start st, (readMeta ctx f d dm start st).st.rest.length ≤ st.rest.length) := by
-  sorry
+    (∀ d dm start st, (readMeta ctx f d dm start st).st.rest.length ≤ st.rest.length) :=
+  fun f => reader_progress' ctx f
 
 /-- monotonicity: one more unit of fuel does not change any result that is not "out of fuel" -/
 theorem reader_fuel_mono (ctx : Ctx) : ∀ (f : Nat),
@@ -73,13 +68,19 @@ theorem reader_fuel_mono (ctx : Ctx) : ∀ (f : Nat),
     (∀ d dm start st, (readTagged ctx f d dm start st).isFuelOut = false →
         readTagged ctx (f + 1) d dm start st = readTagged ctx f d dm start st) ∧
     (∀ d dm start st, (readMeta ctx f d dm start st).isFuelOut = false →
-        readMeta ctx (f + 1) d dm start st = readMeta ctx f d dm start st) := by
-  sorry
+        readMeta ctx (f + 1) d dm start st = readMeta ctx f d dm start st) :=
+  fun f => reader_fuel_mono' ctx f
 
 theorem readValue_fuel_le (ctx : Ctx) (f f' d : Nat) (dm : Bool) (st : St) (hle : f ≤ f')
     (h : (readValue ctx f d dm st).isFuelOut = false) :
     readValue ctx f' d dm st = readValue ctx f d dm st := by
-  sorry
+  obtain ⟨k, rfl⟩ := Nat.exists_eq_add_of_le hle
+  induction k with
+  | zero => rfl
+  | succ k ih =>
+    have hk := ih (Nat.le_add_right _ _)
+    have := (reader_fuel_mono ctx (f + k)).1 d dm st (by rw [hk]; exact h)
+    rw [← Nat.add_assoc, this, hk]
 
 /-- sufficiency: `2 * remaining + 2` units are always enough for `readValue`
     (`2 * remaining + 3` for the loops entered after an opening delimiter) -/
@@ -89,29 +90,68 @@ theorem reader_fuel_sufficient (ctx : Ctx) : ∀ (f : Nat),
     (∀ d dm start ns st ks vs, 2 * st.rest.length + 3 ≤ f → (readMap ctx f d dm start ns st ks vs).isFuelOut = false) ∧
     (∀ d dm start st, 2 * st.rest.length + 3 ≤ f → (readNsMap ctx f d dm start st).isFuelOut = false) ∧
     (∀ d dm start st, 2 * st.rest.length + 3 ≤ f → (readTagged ctx f d dm start st).isFuelOut = false) ∧
-    (∀ d dm start st, 2 * st.rest.length + 3 ≤ f → (readMeta ctx f d dm start st).isFuelOut = false) := by
-  sorry
+    (∀ d dm start st, 2 * st.rest.length + 3 ≤ f → (readMeta ctx f d dm start st).isFuelOut = false) :=
+  fun f => reader_fuel_sufficient' ctx f
 
 /-- C02 (termination): reading never runs out of fuel — the model's `read` always returns a
     value, the end-of-input value, or an error -/
 theorem read_terminates (cfg : Cfg) (opts : Opts) (input : Bytes) :
     (match (read cfg opts input).out with | .fuelOut => false | _ => true) = true := by
-  sorry
+  unfold Edn.Model.read
+  simp only []
+  have hs := (reader_fuel_sufficient { cfg := cfg, opts := opts } (readFuel input)).1 0 false
+    { rest := input } (by simp only [readFuel]; omega)
+  have hc := (reader_noCloser { cfg := cfg, opts := opts } (readFuel input)).1 false { rest := input }
+  cases hr : readValue { cfg := cfg, opts := opts } (readFuel input) 0 false { rest := input } with
+  | ok v st => rfl
+  | closer st => rw [hr] at hc; cases hc
+  | err e st =>
+    rw [hr] at hs
+    simp only [Res.isFuelOut] at hs
+    simp only [hs, Bool.false_eq_true, ↓reduceIte]
+    by_cases hq : (e.code == Err.unexpectedEof && e.eofTop && opts.eofValue) = true
+    · simp only [hq, ↓reduceIte]
+    · simp only [hq, Bool.false_eq_true, ↓reduceIte]
 
 /-- the result of `readValue` does not depend on the fuel once it is sufficient -/
 theorem readValue_fuel_irrelevant (ctx : Ctx) (f f' d : Nat) (dm : Bool) (st : St)
     (h : 2 * st.rest.length + 2 ≤ f) (h' : 2 * st.rest.length + 2 ≤ f') :
     readValue ctx f d dm st = readValue ctx f' d dm st := by
-  sorry
+  rcases Nat.le_total f f' with hle | hle
+  · exact (readValue_fuel_le ctx f f' d dm st hle ((reader_fuel_sufficient ctx f).1 d dm st h)).symm
+  · exact readValue_fuel_le ctx f' f d dm st hle ((reader_fuel_sufficient ctx f').1 d dm st h')
 
 /-- C02 (bounded recursion): at the nesting limit the reader does not descend any further:
     whatever the fuel, the answer is the one obtained with a single unit of fuel, i.e.
     without any recursive call.  Since every recursive call into a collection, tagged
     literal, discard or metadata form increases `d` by one, the recursion depth is bounded
-    by the limit independently of the input. -/
+    by the limit independently of the input.
+
+    STATEMENT CHANGE: the hypothesis `hne` was added.  Without it the statement is false:
+    when the form at the cursor is a lone `#` that ends the input, `readValue` calls
+    `readTagged` (on the empty rest) *before* any depth test, so with a single unit of fuel
+    the answer is "out of fuel" whereas with two or more it is UNEXPECTED_EOF.  Checked:
+      #eval (readValue { cfg := ⟨false, false⟩ } 1 100 false { rest := [0x23] }).isFuelOut  -- true
+      #eval (readValue { cfg := ⟨false, false⟩ } 2 100 false { rest := [0x23] }).isFuelOut  -- false
+    `hne` excludes exactly that input (`skipWs st.rest` is the byte sequence at which
+    `readValue` dispatches); `no_recursion_at_limit₂` below is the hypothesis-free variant
+    with two units of fuel (`readTagged` on the empty rest makes no further call). -/
 theorem no_recursion_at_limit (ctx : Ctx) (f d : Nat) (dm : Bool) (st : St)
-    (hd : Edn.Generated.Tables.maxNestingDepth ≤ d) :
+    (hd : Edn.Generated.Tables.maxNestingDepth ≤ d)
+    (hne : skipWs st.rest ≠ [0x23]) :
     readValue ctx (f + 1) d dm st = readValue ctx 1 d dm st := by
-  sorry
+  rw [readValue_succ ctx f, readValue_succ ctx 0]
+  exact rvOuter_deep ctx d dm st hd (fun h => absurd h hne)
+
+/-- hypothesis-free variant of `no_recursion_at_limit`: two units of fuel (the second one
+    is only ever used by `readTagged` to report the end of input after a final `#`) -/
+theorem no_recursion_at_limit₂ (ctx : Ctx) (f d : Nat) (dm : Bool) (st : St)
+    (hd : Edn.Generated.Tables.maxNestingDepth ≤ d) :
+    readValue ctx (f + 2) d dm st = readValue ctx 2 d dm st := by
+  rw [readValue_succ ctx (f + 1), readValue_succ ctx 1]
+  apply rvOuter_deep ctx d dm st hd
+  intro _ start
+  rw [readTagged_succ, readTagged_succ]
+  rfl
 
 end Edn.Proofs
